@@ -1383,19 +1383,21 @@ def apply_monkey_patches() -> Iterator[None]:
     stays pristine once conversion finishes.
     """
     touched: list[tuple[Any, str]] = []
-    for patch_fn, targets, attr in _iter_patch_specs():
-        for tgt in targets:
-            key = (tgt, attr)
-            st = _PATCH_STATE.get(key)
-            if st is None:
-                orig = getattr(tgt, attr)
-                new = patch_fn(orig)
-                setattr(tgt, attr, new)
-                _PATCH_STATE[key] = {"orig": orig, "count": 1}
-            else:
-                st["count"] += 1
-            touched.append(key)
     try:
+        # Apply inside the try block: if a later target is missing its attribute or
+        # a patch factory raises, the patches applied so far are still unwound.
+        for patch_fn, targets, attr in _iter_patch_specs():
+            for tgt in targets:
+                key = (tgt, attr)
+                st = _PATCH_STATE.get(key)
+                if st is None:
+                    orig = getattr(tgt, attr)
+                    new = patch_fn(orig)
+                    setattr(tgt, attr, new)
+                    _PATCH_STATE[key] = {"orig": orig, "count": 1}
+                else:
+                    st["count"] += 1
+                touched.append(key)
         yield
     finally:
         for key in reversed(touched):
